@@ -134,32 +134,6 @@ func VH_C11_ListOffsets() {
 
 // ---------- fetch ----------
 
-// vhFetchResponse builds a fetch response (v2, v5 or v10) for one topic/partition with the given raw message set.
-func vhFetchResponse(corr int32, version int, topErr int16, topic string, partition int32, code int16, hwm int64, msgSet []byte) []byte {
-	w := &vhW{}
-	w.i32(0) // throttle (v1+)
-	if version >= 7 {
-		w.i16(topErr)
-		w.i32(0) // session id
-	}
-	w.i32(1)
-	w.str(topic)
-	w.i32(1)
-	w.i32(partition)
-	w.i16(code)
-	w.i64(hwm)
-	if version >= 4 {
-		w.i64(hwm) // last stable offset
-		if version >= 5 {
-			w.i64(0) // log start offset
-		}
-		w.i32(-1) // aborted transactions: null
-	}
-	w.i32(int32(len(msgSet)))
-	w.raw(msgSet)
-	return vhFrameOf(corr, w.b)
-}
-
 // vhMessageV1 encodes one uncompressed message of format 1 (CRC is not verified by the Conn path).
 func vhMessageV1(offset int64, ts int64, key, value []byte) []byte {
 	m := &vhW{}
